@@ -700,7 +700,12 @@ static void run_tree(Node *t) {
 	if (E) {
 		vh_fp(vh_mix(vh_hash_bytes(E, t->elen), what));
 		{ Hdr h; int c; if (ref_prefix(E, t->elen, &h) || h.hl + h.dl != t->elen || h.tag != t->tag || (t->comp && ref_tile(E + h.hl, h.dl, &c) != (long)t->nk)) die("reference decoder disagrees with reference encoder"); }
-		if (vh_nsample < 3 && t->comp && t->elen > 12 && t->elen < 120) vh_sample("%s (what=%u: every buffer size 0..%zu, every truncation, every length field +-1/+-256)", tdesc, what, t->elen + 8);
+		if (vh_nsample < 3 && t->comp && t->elen > 12 && t->elen < 120) vh_sample("%s (%s)", tdesc,
+			(what & W_TREE_SER) ? "tree codec: serialize, serialize_ex/writeBytes/serializePayload into every buffer size 0..needed+8, clone, getRawValue" :
+			(what & W_EL_FIT) ? "element codec: serialize with every option into every buffer size needed..needed+8, length query, detach" :
+			(what & W_EL_SHORT) ? "element codec: serialize with every option into every buffer size 0..needed-1" :
+			(what & W_PARSE) ? "all parsers/readers over the encoding, every truncation, every length field +-1/+-256, non-canonical header" :
+			(what & W_STREAM) ? "FILE and socket readers: element + foreign bytes, every buffer size, every truncation of the stream" : "element codec: remove / set / detach edits");
 	} else vh_fp(vh_mix(vh_mix(t->clen, t->nk), vh_mix(over_size(t), what)));
 	if (what & W_TREE_SER) tlv_serialize_checks(t, E, content);
 	if (what & (W_EL_FIT | W_EL_SHORT)) {
